@@ -6,8 +6,10 @@ import (
 	"fmt"
 	"os"
 	"path/filepath"
+	"runtime"
 	"strconv"
 	"strings"
+	"sync/atomic"
 	"testing"
 	"time"
 )
@@ -34,6 +36,37 @@ func TestSim(t *testing.T) {
 	}
 	trace := os.Getenv("VERIF_TRACE") == "1"
 	defer CleanupGlobal()
+	// watchdog: a goroutine of the wallet that waits for a mutex held by a
+	// goroutine parked at a gate is invisible to the bubble (a mutex wait is
+	// not a durable block) and would hang the worker for ever. That is a
+	// limit of the simulator, never a verdict: exit code 2.
+	var curSeed atomic.Uint64
+	go func() {
+		last, since := int64(-1), time.Now()
+		limit := 90 * time.Second
+		for {
+			time.Sleep(time.Second)
+			if p := Progress.Load(); p != last {
+				last, since = p, time.Now()
+				continue
+			}
+			if time.Since(since) > limit {
+				buf := make([]byte, 1<<22)
+				n := runtime.Stack(buf, true)
+				var stuck []string
+				for _, g := range strings.Split(string(buf[:n]), "\n\n") {
+					if strings.Contains(g, "sync.Mutex.Lock") || strings.Contains(g, "sync.RWMutex") || strings.Contains(g, "[running") || strings.Contains(g, "[runnable") {
+						if len(g) > 1800 {
+							g = g[:1800]
+						}
+						stuck = append(stuck, g)
+					}
+				}
+				fmt.Fprintf(os.Stderr, "HARNESS-HANG property=%s seed=%d: no scheduler step for %v; parked: %s\ngoroutines not parked:\n%s\n", prop, curSeed.Load(), limit, CurrentParked(), strings.Join(stuck, "\n\n"))
+				os.Exit(2)
+			}
+		}
+	}()
 	var out *bufio.Writer
 	if p := os.Getenv("VERIF_OUT"); p != "" {
 		f, err := os.OpenFile(p, os.O_CREATE|os.O_WRONLY|os.O_APPEND, 0o644)
@@ -127,6 +160,8 @@ func TestSim(t *testing.T) {
 		queue = queue[1:]
 		seed := j.seed
 		params := j.params
+		curSeed.Store(seed)
+		Progress.Add(1)
 		res := RunOneMode(t, prop, seed, j.plan, j.sched, j.mode, params, trace)
 		if res.Extra == nil {
 			res.Extra = map[string]interface{}{}
@@ -165,6 +200,12 @@ func TestSim(t *testing.T) {
 		}
 		if minimize && replayDir != "" && res.Harness == "" {
 			for _, class := range res.Classes() {
+				if strings.HasSuffix(class, ".data-race") {
+					// the race detector reports a pair of stacks once per process:
+					// re-running in this process cannot show it again. The driver
+					// writes the unminimised tapes and replays them in a fresh process.
+					continue
+				}
 				if minimized[class] || strings.Contains(","+os.Getenv("VERIF_KNOWN_CLASSES")+",", ","+class+",") {
 					continue // one replay file per violation class per worker; none for listed findings
 				}
